@@ -315,6 +315,45 @@ fn body(c: &Case, lx: &mut Local) {
     });
 }
 
+/// Weighted routines on NON-empty inputs whose weights are all zero or cancel: the statement allows
+/// EmptyInput only for inputs without elements, so these must be Ok (whatever the numeric value).
+fn zero_weight_body(c: &(Vec<usize>, u8, u8), lx: &mut Local) {
+    let (shape, kind, routine) = c;
+    let n: usize = shape.iter().product();
+    lx.nontrivial(true);
+    lx.single(|lx| {
+        let lay = layout_of(shape.len(), *kind % 3);
+        let hf = Host::new(shape, &fdata(n), &lay, 9.0);
+        let w: Vec<f64> = (0..n).map(|i| if *kind < 3 { 0.0 } else if i % 2 == 0 { 1.0 } else { -1.0 }).collect();
+        let w = if *kind >= 3 && n % 2 == 1 { let mut w = w; w[n - 1] = 0.0; w } else { w };
+        let hw = Host::new(shape, &w, &lay, 9.0);
+        let (a, b) = (hf.view(), hw.view());
+        let ax = Axis(shape.len() - 1);
+        let wl = shape[shape.len() - 1];
+        let w1: Vec<f64> = (0..wl).map(|i| if *kind < 3 { 0.0 } else if i % 2 == 0 { 1.0 } else { -1.0 }).collect();
+        let w1 = if *kind >= 3 && wl % 2 == 1 { let mut w = w1; w[wl - 1] = 0.0; w } else { w1 };
+        let hw1 = Host::new(&[wl], &w1, &layout_of(1, 0), 9.0);
+        let wv = hw1.view().into_dimensionality::<Ix1>().unwrap();
+        let got = match routine {
+            0 => run(|| multi(a.weighted_mean(&b))),
+            1 => run(|| multi(a.weighted_var(&b, 0.0))),
+            2 => run(|| multi(a.weighted_std(&b, 1.0))),
+            3 => run(|| multi(a.weighted_sum(&b))),
+            4 => run(|| multi(a.weighted_mean_axis(ax, &wv).map(|r| r.shape().to_vec()))),
+            5 => run(|| multi(a.weighted_var_axis(ax, &wv, 0.0).map(|r| r.shape().to_vec()))),
+            6 => run(|| multi(a.weighted_std_axis(ax, &wv, 0.0).map(|r| r.shape().to_vec()))),
+            _ => run(|| multi(a.weighted_sum_axis(ax, &wv).map(|r| r.shape().to_vec()))),
+        };
+        let name = ["weighted_mean", "weighted_var", "weighted_std", "weighted_sum", "weighted_mean_axis", "weighted_var_axis", "weighted_std_axis", "weighted_sum_axis"][*routine as usize];
+        match &got {
+            Out::Ok(_) => {}
+            Out::Panic(m) => lx.fail("C17/panic", || format!("{} on a non-empty input of shape {:?} with {} weights panicked: {}", name, shape, if *kind < 3 { "all-zero" } else { "cancelling" }, m)),
+            other => lx.fail("C17/spurious-error", || format!("{} on a non-empty input of shape {:?} with {} weights returned {:?}, expected Ok", name, shape, if *kind < 3 { "all-zero" } else { "cancelling" }, other)),
+        }
+        hash_of(&format!("{:?}", got))
+    });
+}
+
 fn main() {
     let mut rep = Report::new("C17");
     rep.rule = "case = one cell of the decision table: (routine, first-input shape, second-input shape / weights length, axis, q list, layout); non-trivial = every cell (each is a distinct configuration)".into();
@@ -401,6 +440,13 @@ fn main() {
             lx.nontrivial(true);
             body(c, lx)
         },
+    );
+    let zcases = [vec![3usize], vec![2], vec![2, 3], vec![3, 2], vec![2, 1, 2]].iter().flat_map(|sh| (0..6u8).flat_map(move |kind| (0..8u8).map(move |r| (sh.clone(), kind, r)))).collect::<Vec<_>>();
+    rep.run_sub(
+        "zero-total-weight",
+        "8 weighted routines x non-empty shapes (3,), (2,), (2,3), (3,2), (2,1,2) x layouts x weights that are all zero or cancel exactly (+1, -1, ...): none of the documented error conditions holds, so the result must be Ok (the numeric value is not judged)",
+        zcases.into_iter(),
+        zero_weight_body,
     );
     rep.finish();
 }
